@@ -111,7 +111,11 @@ func (r *Report) isKnown(label string) (knownFinding, bool) {
 func (r *Report) addHarness(res *HarnessResult) {
 	hs := res.Spec
 	hr := &harnessReport{Name: hs.Name, Entry: hs.Entry, Package: hs.Pkg, Encoding: "BV", LoadS: res.LoadS, ExploreS: res.ExploreS,
-		Stubs: hs.Stubs, Outside: hs.Outside}
+		Stubs: append([]string{}, hs.Stubs...), Outside: hs.Outside}
+	for from, to := range hs.Redirects {
+		hr.Stubs = append(hr.Stubs, "redirect (engine only; the native replay runs the real function): "+from+" => harness model "+to)
+	}
+	sort.Strings(hr.Stubs)
 	if hs.IntMode {
 		hr.Encoding = "INT (mathematical integers with explicit mod 2^w), non-incremental queries"
 	}
